@@ -12,6 +12,7 @@ MODEL_TARGETS = ['theories/Model/Cache.vo']
 MODEL_NEEDS_IMPL = True
 SHARD = 6
 SIZES = {'quick': 150, 'thorough': 2500, 'search': 500}
+SUBSTREAMS = ['c05_shared']      # goals with the shared-resource reload feature: a per-solution aggregate cached inside per-route state
 RULE = ('cases: the operator histories of C04 (problem built through the core API + 6-18 calls of the real ruin / recreate / local / '
         'search operators with a scripted Random; 1 step in 5 runs under a counting quota that is reached from its k-th poll '
         'on, so the step is interrupted after some insertions; some jobs start pending in `ignored`); every third history '
